@@ -28,13 +28,54 @@ EXPLANATION = (
     "string to a lambda using that operator; R1.5 binding-count overflow and "
     "long unions widen to Any.  These are necessary conditions: breaking any "
     "one makes inference drop a value that occurs at run time.  The "
-    "interpreter's transfer functions themselves are not decided.")
+    "interpreter's transfer functions themselves are not decided.  How: "
+    "R1.1 resolves the byte_* handlers through module-local base classes of "
+    "VirtualMachine (a private opcode mixin) and follows `return "
+    "self.<helper>(..)` / `self.byte_X(..)` delegation to the one jump_if "
+    "call, replacing the delegate's parameters by the caller's arguments "
+    "(defaults included), so the value judged is the one that reaches "
+    "jump_if.  R1.2 and the restrict_condition / _match_condition part of "
+    "R1.3 are decided by small-scope exhaustive evaluation instead of by the "
+    "shape of the code: the functions are interpreted from their AST "
+    "(rules/_minieval.py; module-local helpers are followed, nothing from "
+    "/repo is imported or run) in a world of opaque records.  jump_if is run "
+    "for every jump value (True, False, None, NOT_NONE) x pop behaviour x "
+    "outcome (unsatisfiable / unrestricted / a Condition) of the two "
+    "restrict_condition calls, 108 runs; demanded: the two calls ask about "
+    "the same node and variable, one about jump_if_val and one about its "
+    "exact complement; store_jump(op.target, s) happens exactly when the "
+    "jump_if_val answer is satisfiable, with s derived by "
+    "forward_cfg_node(.., <that answer's binding>); the returned state "
+    "is set_why(..) / forward_cfg_node(.., <binding>) according "
+    "to the complement's answer (node labels and the why-text are not judged); a crash (AttributeError on the "
+    "UNSATISFIABLE sentinel, failed assert) on such a run is a violation.  "
+    "restrict_condition is run on every vector of 0..3 bindings x 4 "
+    "conditions with compare.compatible_with / compatible_with_none "
+    "answering from a table: None exactly when all of >= 1 bindings match, "
+    "UNSATISFIABLE exactly when none does, otherwise Condition(node, [[b] "
+    "for the matching b, in order]), each binding matched against the given "
+    "condition; _match_condition must consult compatible_with(value, c) for "
+    "a bool c, compatible_with_none(value) for None and the NoneType name "
+    "test for NOT_NONE.  Loops, comprehensions, guard clauses, early "
+    "returns and extracted helpers are therefore all the same to these "
+    "rules; a construct outside the interpreted fragment is an analysis "
+    "error.  The Empty -> Any arm (R1.3) and the Optimize call of "
+    "generate_pyi_ast (R1.5) are also found in methods / module-local "
+    "helpers the anchor calls; a vanished Empty arm is an analysis error, an "
+    "arm assigning anything but AnythingType a violation.")
 ASSUMPTIONS = [
     "opcode names state the CPython jump polarity (checked against the host "
     "CPython `dis`/`opcode` tables where the opcode exists in 3.12)",
     "only the named guard rails are decided; per-opcode stack effects, "
     "convert.py, output.py, attribute.py and the matcher are out of reach of "
     "a static argument",
+    "world model of R1.2/R1.3's evaluation: FrameState.pop/top/"
+    "pop_and_discard/set_why/forward_cfg_node return fresh states and do "
+    "nothing else jump_if depends on; states and Condition objects are "
+    "truthy; state.UNSATISFIABLE and state.NOT_NONE are attribute-less "
+    "`object()` sentinels (checked); PopBehavior has exactly the members "
+    "NONE, OR, ALWAYS (checked); three bindings are enough to tell "
+    "all/some/none apart",
 ]
 # rules/c01_flags.py (R1.20, R1.21)
 EXPLANATION += (
@@ -57,7 +98,10 @@ EXPLANATION += (
     "obj.update_caches(force=<true constant>) on the same object.  Blind "
     "spots: R1.20(b) understands loop / any() scans with `in "
     "X.get_own_attributes()`, `&`, .intersection/.isdisjoint tests, anything "
-    "else is an analysis error; own-table tests elsewhere in the package "
+    "else is an analysis error; the flag is read off the guards of `return "
+    "<logical value>` in compare.compatible_with or in a module-local "
+    "helper it hands the logical value to, through not / and / or (De "
+    "Morgan) and a local bound once to `<value>.cls`; own-table tests elsewhere in the package "
     "(overlays) are not inventoried - most are intentionally 'defined "
     "here'.  R1.21 is a necessary condition of a protocol that is itself "
     "incomplete: the memoised full hash descends into member values while "
@@ -116,6 +160,29 @@ def _is_jump_if(call):
   return (dotted(call.func) or "").endswith("jump_if")
 
 
+def _deref_local(fn, node):
+  """A bare local name bound exactly once in `fn` stands for its value;
+  parameters stay (the caller substitutes them); any other bare name is not
+  understood."""
+  for _ in range(4):
+    if not isinstance(node, ast.Name):
+      return node
+    params = {a.arg for a in fn.args.posonlyargs + fn.args.args + fn.args.kwonlyargs}
+    if node.id in params:
+      return node
+    vals = [n.value for n in ast.walk(fn) if isinstance(n, ast.Assign)
+            and any(isinstance(x, ast.Name) and x.id == node.id
+                    for tg in n.targets for x in ast.walk(tg))]
+    other = [n for n in ast.walk(fn) if isinstance(n, ast.Name) and n.id == node.id
+             and not isinstance(n.ctx, ast.Load)]
+    if len(vals) != 1 or len(other) != 1:
+      raise AnalysisError(
+          f"{fn.name}: the value `{node.id}` handed to jump_if is not a "
+          "parameter, a constant or a local bound once")
+    node = vals[0]
+  return node
+
+
 def _resolve_jump_args(methods, name, seen=()):
   """(jump_if_val node, pop node or None) the handler `name` hands to
   vm_utils.jump_if, following `self.<method>(..)` delegation (sibling byte_
@@ -126,7 +193,8 @@ def _resolve_jump_args(methods, name, seen=()):
   fn = methods[name]
   calls = [c for c in calls_in(fn) if _is_jump_if(c)]
   if len(calls) == 1:
-    return kwarg(calls[0], "jump_if_val"), kwarg(calls[0], "pop")
+    return tuple(_deref_local(fn, x) for x in
+                 (kwarg(calls[0], "jump_if_val"), kwarg(calls[0], "pop")))
   if calls:
     return None
   for c in calls_in(fn):
@@ -146,7 +214,8 @@ def _resolve_jump_args(methods, name, seen=()):
     binding = _u.bind_call(methods[callee], c, skip_self=True)
     if binding is None:
       return None
-    return tuple(binding.get(x.id, x) if isinstance(x, ast.Name) else x for x in r)
+    return tuple(_deref_local(fn, binding.get(x.id, x)) if isinstance(x, ast.Name)
+                 else x for x in r)
   return None
 
 
@@ -212,8 +281,9 @@ def _jump_if_runs(ctx, mod):
           for t in st.targets if isinstance(t, ast.Name)]
   if sorted(pops) != ["ALWAYS", "NONE", "OR"]:
     raise AnalysisError(f"PopBehavior members {pops} not understood")
-  not_none = _me.Obj(("NOT_NONE",))
-  unsat = _me.Obj(("UNSATISFIABLE",))
+  # `object()` sentinels of state.py: closed records (no attributes)
+  not_none = _me.Obj(("closed", "NOT_NONE"))
+  unsat = _me.Obj(("closed", "UNSATISFIABLE"))
   pop_objs = {n: _me.Obj((f"PopBehavior.{n}",)) for n in pops}
   value = _me.Obj(("Variable",))
   target = _me.Obj(("Target",))
@@ -273,10 +343,18 @@ def _jump_if_runs(ctx, mod):
           except _me.Outside as e:
             raise AnalysisError(f"jump_if uses a construct outside the evaluated "
                                 f"fragment: {e}") from e
-          except (_me.Raised, _me.Diverged) as e:
-            raise AnalysisError(
-                f"jump_if(jump_if_val={jv!r}, pop={pop}) raised {e!r} in the "
-                "world model: cannot decide") from e
+          except _me.Raised as e:
+            # a crash on a legitimate combination (e.g. `.binding` of the
+            # UNSATISFIABLE sentinel, a failed assert): the run is judged as
+            # it stands, with no result
+            if e.name not in ("AttributeError", "AssertionError", "TypeError"):
+              raise AnalysisError(
+                  f"jump_if(jump_if_val={jv!r}, pop={pop}) raised {e!r} in the "
+                  "world model: cannot decide") from e
+            rec["result"] = None
+            rec["raised"] = e.name
+          except _me.Diverged as e:
+            raise AnalysisError("jump_if does not terminate in the world model") from e
           rec["complement"] = complement(jv)
           runs.append(rec)
   return runs
@@ -284,7 +362,7 @@ def _jump_if_runs(ctx, mod):
 
 def _show(v):
   if isinstance(v, _me.Obj):
-    return "/".join(v.kinds)
+    return "/".join(k for k in v.kinds if k != "closed")
   return repr(v)
 
 
@@ -322,6 +400,9 @@ def r1_2(ctx):
   for r in runs:
     tag = f"jump_if_val={_show(r['jv'])}, pop={r['pop']}, jump side {_show(r['J'])}, " \
         f"fall-through side {_show(r['N'])}"
+    if r.get("raised"):
+      bad.append(f"{tag}: jump_if raises {r['raised']}")
+      continue
     if any(n is not r["node"] or v is not r["value"] for n, v, _ in r["restrict"]):
       bad.append(f"{tag}: restrict_condition called on another node/variable")
       continue
@@ -330,9 +411,9 @@ def r1_2(ctx):
     if trace is None:
       bad.append(f"{tag}: result is {_show(res)}, not a frame state")
     elif n is r["unsat"]:
-      if not (trace and trace[-1] == ("why", "unsatisfiable")):
+      if not (trace and trace[-1][0] == "why"):
         bad.append(f"{tag}: an unsatisfiable fall-through side must end the block "
-                   f"(set_why('unsatisfiable')), result derived by {trace}")
+                   f"(set_why(..)), result derived by {trace}")
     elif n is not None:
       if not (trace and trace[-1][0] == "fwd" and trace[-1][2] is n.attrs["binding"]):
         bad.append(f"{tag}: the fall-through state must be conditioned on the "
@@ -353,6 +434,9 @@ def r1_2(ctx):
     tag = f"jump_if_val={_show(r['jv'])}, pop={r['pop']}, jump side {_show(r['J'])}, " \
         f"fall-through side {_show(r['N'])}"
     j = r["J"]
+    if r.get("raised"):
+      bad.append(f"{tag}: jump_if raises {r['raised']}")
+      continue
     if j is r["unsat"]:
       if r["stored"]:
         bad.append(f"{tag}: store_jump called although the jump side is unsatisfiable")
@@ -365,7 +449,7 @@ def r1_2(ctx):
     fwd = [x for x in (trace or ()) if x[0] == "fwd"]
     conds = [x[2] for x in fwd if x[2] is not None]
     want = [j.attrs["binding"]] if j is not None else []
-    if tgt is not r["target"] or not fwd or any(x[1] != "Jump" for x in fwd) or \
+    if tgt is not r["target"] or not fwd or \
         len(conds) != len(want) or any(a is not b for a, b in zip(conds, want)):
       bad.append(f"{tag}: store_jump({_show(tgt)}, state derived by {trace})")
   ctx.check(not bad, "jump-edge-guard", rel, fn.lineno,
@@ -454,9 +538,15 @@ def r1_3(ctx):
     raise AnalysisError(
         "pytd_for_types: expected one `if isinstance(<option>, abstract.Empty):` "
         f"arm in it or the methods it calls, found {len(empty_arms)}")
-  st = empty_arms[0].body[0]
-  found_empty = len(empty_arms[0].body) == 1 and isinstance(st, ast.Assign) and \
-      src(st.value) == "pytd.AnythingType()"
+  found_empty = False
+  for st in empty_arms[0].body:
+    if isinstance(st, (ast.Assign, ast.Return)) and st.value is not None:
+      found_empty = found_empty or (
+          isinstance(st.value, ast.Call) and not st.value.args and
+          (dotted(st.value.func) or "").split(".")[-1] == "AnythingType")
+    elif not isinstance(st, (ast.Expr, ast.Pass, ast.Assert)):
+      raise AnalysisError("pytd_for_types: the abstract.Empty arm contains "
+                          f"`{src(st)[:60]}`, not understood")
   # the final else of the `if len(options) > 1 ... elif options: ... else:` chain
   for n in ast.walk(fn):
     if isinstance(n, ast.If) and src(n.test) == "options" and n.orelse:
@@ -482,8 +572,8 @@ def _restrict_condition_checks(ctx, mod, rel):
     v = mod.assigns.get(name)
     if not (isinstance(v, ast.Call) and dotted(v.func) == "object" and not v.args):
       raise AnalysisError(f"state.{name} is not a module-level `object()` sentinel")
-  unsat = _me.Obj(("UNSATISFIABLE",))
-  not_none = _me.Obj(("NOT_NONE",))
+  unsat = _me.Obj(("closed", "UNSATISFIABLE"))
+  not_none = _me.Obj(("closed", "NOT_NONE"))
   world = {"UNSATISFIABLE": unsat, "NOT_NONE": not_none}
 
   def evaluate(name, args, table, calls):
@@ -567,6 +657,9 @@ def _restrict_condition_checks(ctx, mod, rel):
         if not kept:
           if res is not unsat:
             binding_wrong.append(f"{tag}: expected UNSATISFIABLE, got {_show(res)}")
+          continue
+        if res is unsat:
+          binding_wrong.append(f"{tag}: returned UNSATISFIABLE although a binding matches")
           continue
         args = res.attrs.get("args") if isinstance(res, _me.Obj) and \
             res.kinds == ("Condition",) else None
@@ -724,6 +817,48 @@ VARIANTS = [
      "new": "    self.generic_type = pytd.ClassType(\"builtins.object\")\n    self.max_length = max_length"},
     {"name": "lossy-optimize", "rule": "R1.5", "file": "pytype/io.py", "expect": "fire",
      "old": "        lossy=False,", "new": "        lossy=True,"},
+    # second batch of behaviour-preserving refactorings: the refactored shape is a
+    # must-silent twin, refactoring + defect must fire (benign/<id>/*.diff)
+    {"name": "twin-benign-C01-r1-jump-helpers-comprehensions", "rule": "R1.2", "patch": "benign/C01-r1/patch.diff", "expect": "silent"},
+    {"name": "C01-r1+negate-helper-fixed-point", "rule": "R1.2", "patch": "benign/C01-r1/defect_negate_helper_fixed_point.diff", "expect": "fire"},
+    {"name": "C01-r1+negate-helper-none-to-none", "rule": "R1.2", "patch": "benign/C01-r1/defect_negate_helper_none_to_none.diff", "expect": "fire"},
+    {"name": "C01-r1+store-jump-guard-inverted", "rule": "R1.2", "patch": "benign/C01-r1/defect_store_jump_guard_inverted.diff", "expect": "fire"},
+    {"name": "C01-r1+jump-edge-from-normal-side", "rule": "R1.2", "patch": "benign/C01-r1/defect_jump_edge_from_normal_side.diff", "expect": "fire"},
+    {"name": "C01-r1+unrestricted-when-any-matches", "rule": "R1.3", "patch": "benign/C01-r1/defect_unrestricted_when_any_matches.diff", "expect": "fire"},
+    {"name": "C01-r1+keeps-rejected-bindings", "rule": "R1.3", "patch": "benign/C01-r1/defect_keeps_rejected_bindings.diff", "expect": "fire"},
+    {"name": "C01-r1+matches-negated-condition", "rule": "R1.3", "patch": "benign/C01-r1/defect_matches_negated_condition.diff", "expect": "fire"},
+    {"name": "C01-r1+none-condition-bool-predicate", "rule": "R1.3", "patch": "benign/C01-r1/defect_none_condition_bool_predicate.diff", "expect": "fire"},
+    {"name": "twin-benign-C01-r3-pytd_for_types-split", "rule": "R1.3", "patch": "benign/C01-r3/patch.diff", "expect": "silent"},
+    {"name": "C01-r3+empty-stays-nothing", "rule": "R1.3", "patch": "benign/C01-r3/defect_empty_stays_nothing.diff", "expect": "fire"},
+    {"name": "C01-r3+empty-arm-removed", "rule": "R1.3", "patch": "benign/C01-r3/unsupported_empty_arm_removed.diff", "expect": "error"},
+    {"name": "twin-benign-C01-r4-jump-opcodes-in-mixin", "rule": "R1.1", "patch": "benign/C01-r4/patch.diff", "expect": "silent"},
+    {"name": "C01-r4+mixin-handler-wrong-value", "rule": "R1.1", "patch": "benign/C01-r4/defect_mixin_handler_wrong_value.diff", "expect": "fire"},
+    {"name": "C01-r4+shared-helper-negates", "rule": "R1.1", "patch": "benign/C01-r4/defect_shared_helper_negates.diff", "expect": "fire"},
+    {"name": "C01-r4+mixin-handler-wrong-pop", "rule": "R1.1", "patch": "benign/C01-r4/defect_mixin_handler_wrong_pop.diff", "expect": "fire"},
+    {"name": "twin-benign-C04-r4-optimize-call-in-helper", "rule": "R1.5", "patch": "benign/C04-r4/patch.diff", "expect": "silent"},
+    {"name": "C04-r4+helper-optimizes-lossy", "rule": "R1.5", "patch": "benign/C04-r4/defect_helper_optimizes_lossy.diff", "expect": "fire"},
+    {"name": "twin-benign-C11-r4-table-driven-passes", "rule": "R1.6", "patch": "benign/C11-r4/patch.diff", "expect": "silent"},
+    {"name": "C11-r4+absorb-counts-superclass-closure", "rule": "R1.6", "patch": "benign/C11-r4/defect_absorb_counts_superclass_closure.diff", "expect": "fire"},
+    {"name": "C11-r4+helper-merges-subclass-mapping", "rule": "R1.6", "patch": "benign/C11-r4/defect_helper_merges_subclass_mapping.diff", "expect": "fire"},
+    # small edits of today's tree exercising the same abilities
+    {"name": "twin-restrict-condition-comprehension-form", "rule": "R1.3", "file": "pytype/state.py", "expect": "silent",
+     "old": "  dnf = []\n  restricted = False\n  for b in var.bindings:\n    match_result = _match_condition(b.data, condition)\n    if match_result:\n      dnf.append([b])  # the binding may match the condition\n    else:\n      restricted = True  # the binding cannot match the condition\n",
+     "new": "  results = [(b, _match_condition(b.data, condition)) for b in var.bindings]\n  dnf = [[b] for b, ok in results if ok]\n  restricted = len(dnf) < len(results)\n"},
+    {"name": "restrict-condition-comprehension-form-drops-last", "rule": "R1.3", "file": "pytype/state.py", "expect": "fire",
+     "old": "  dnf = []\n  restricted = False\n  for b in var.bindings:\n    match_result = _match_condition(b.data, condition)\n    if match_result:\n      dnf.append([b])  # the binding may match the condition\n    else:\n      restricted = True  # the binding cannot match the condition\n",
+     "new": "  results = [(b, _match_condition(b.data, condition)) for b in var.bindings]\n  dnf = [[b] for b, ok in results[:2] if ok]\n  restricted = len(dnf) < len(results)\n"},
+    {"name": "twin-jump-if-guard-clause-for-unsatisfiable-jump", "rule": "R1.2", "file": "pytype/vm_utils.py", "expect": "silent",
+     "old": "    ctx.vm.store_jump(op.target, else_state)\n  else:\n    else_state = None\n",
+     "new": "    ctx.vm.store_jump(op.target, else_state)\n  if jump is frame_state.UNSATISFIABLE:\n    else_state = None\n"},
+    {"name": "jump-stored-although-unsatisfiable", "rule": "R1.2", "file": "pytype/vm_utils.py", "expect": "fire",
+     "old": "  if jump is not frame_state.UNSATISFIABLE:\n    if jump:",
+     "new": "  if jump is not None:\n    if jump and jump is not frame_state.UNSATISFIABLE:"},
+    {"name": "twin-jump-handler-through-shared-helper", "rule": "R1.1", "file": VM, "expect": "silent",
+     "old": "  def byte_JUMP_IF_TRUE(self, state, op):\n    return vm_utils.jump_if(state, op, self.ctx, jump_if_val=True)",
+     "new": "  def _cond_jump(self, state, op, val, pop=vm_utils.PopBehavior.NONE):\n    return vm_utils.jump_if(state, op, self.ctx, jump_if_val=val, pop=pop)\n\n  def byte_JUMP_IF_TRUE(self, state, op):\n    return self._cond_jump(state, op, True)"},
+    {"name": "jump-handler-through-shared-helper-wrong-value", "rule": "R1.1", "file": VM, "expect": "fire",
+     "old": "  def byte_JUMP_IF_TRUE(self, state, op):\n    return vm_utils.jump_if(state, op, self.ctx, jump_if_val=True)",
+     "new": "  def _cond_jump(self, state, op, val, pop=vm_utils.PopBehavior.NONE):\n    return vm_utils.jump_if(state, op, self.ctx, jump_if_val=val, pop=pop)\n\n  def byte_JUMP_IF_TRUE(self, state, op):\n    return self._cond_jump(state, op, False)"},
     # R1.6 (same analysis as R11.6)
     {"name": "seeded-C01-m1", "rule": "R1.6", "patch": "seeded/C01-m1/patch.diff", "expect": "fire"},
     {"name": "expand-subclasses-walks-superclass-table", "rule": "R1.6", "file": "pytype/pytd/optimize.py", "expect": "fire",
